@@ -95,3 +95,18 @@ M("c06.pie-p", "C06", C, "final_lon = p.rad() + pie.rad() - atan2(a, b)", "final
 M("c06.pm-t", "C06", C, "start_ra += p_motion_ra * t * 100.0", "start_ra += p_motion_ra * t")
 M("c06.newcomb-const", "C06", C, "zeta = t * (2304.25 + 1.396 * tt", "zeta = t * (2340.25 + 1.396 * tt")
 M("c06.elements-domega", "C06", C, "domega = atan2(-sin(etar) * sin(lon0r - pir),", "domega = atan2(sin(etar) * sin(lon0r - pir),")
+# ---- C07
+V = "pymeeus/Venus.py"
+M("c07.horner-range", "C07", C, "    for i in range(len(sum_list) - 1, 0, -1):\n        lon = (lon + sum_list[i]) * t", "    for i in range(len(sum_list) - 1, 1, -1):\n        lon = (lon + sum_list[i]) * t")
+M("c07.r-1e7", "C07", C, "    r += sum_list[0]\n    r /= 1e8", "    r += sum_list[0]\n    r /= 1e7")
+M("c07.B-minus-Ct", "C07", C, "s += vsop_b[i][k][0] * cos(vsop_b[i][k][1] + vsop_b[i][k][2] * t)", "s += vsop_b[i][k][0] * cos(vsop_b[i][k][1] - vsop_b[i][k][2] * t)")
+M("c07.fk5-1.397", "C07", C, "lambda_p = lon - t * (1.397 + 0.00031 * t)", "lambda_p = lon - t * (13.97 + 0.00031 * t)")
+M("c07.fk5-sign", "C07", C, "delta_lon = Angle(0, 0, -0.09033)", "delta_lon = Angle(0, 0, 0.09033)")
+M("c07.aberration", "C07", C, "delta = -20.4898 / r", "delta = -2.04898 / r")
+M("c07.venus-a", "C07", V, "[0.72332982, 0.0, 0.0, 0.0],", "[0.73779642, 0.0, 0.0, 0.0],")
+M("c07.venus-Lrate", "C07", V, "[181.979801, 58519.2130302, 0.00031014, 0.000000015],", "[181.979801, 58519.7130302, 0.00031014, 0.000000015],")
+M("c07.venus-Lrate-j2000", "C07", V, "[181.979801, 58517.815676, 0.00000165, -0.000000002],", "[181.979801, 58417.815676, 0.00000165, -0.000000002],")
+M("c07.mercury-drop-R0-term", "C07", "pymeeus/Mercury.py", "[7834131.817, 6.19233722599, 26087.90314157420],", "[0.0, 6.19233722599, 26087.90314157420],")
+M("c07.mercury-L-term-phase", "C07", "pymeeus/Mercury.py", "[7834131.817, 6.19233722599, 26087.90314157420],", "[7834131.817, 6.91233722599, 26087.90314157420],")
+M("c07.element-e", "C07", V, "[0.00677192, -0.000047765, 0.0000000981, 0.00000000046],", "[0.01677192, -0.000047765, 0.0000000981, 0.00000000046],")
+M("c07.to_positive-dropped", "C07", C, "    lon = Angle(lon, radians=True)\n    lon = lon.to_positive()\n    sum_list = []", "    lon = Angle(lon, radians=True)\n    sum_list = []")
